@@ -15,6 +15,7 @@ import (
 	"github.com/cossacklabs/acra/acra-censor/handlers"
 	"github.com/cossacklabs/acra/crypto"
 	"github.com/cossacklabs/acra/decryptor/base"
+	"github.com/cossacklabs/acra/logging"
 	"github.com/cossacklabs/acra/sqlparser"
 
 	"github.com/cossacklabs/acra/encryptor/base/config"
@@ -265,6 +266,19 @@ func VerifC05_PgProxyDropsDenied() {
 	fwd, censored, err = v.fromClient(verifDup(second))
 	verif.Assert(err == nil && !censored, "allowed-statement-passes")
 	verif.Assert(verif.Eq(fwd, second), "allowed-statement-forwarded-unchanged")
+	// the verdict belongs to the statement text, not to the prepared-statement name: a name that was accepted once
+	// does not carry a denied text past the firewall later (with or without a Close in between)
+	if _, censored, err := v.fromClient(verifParse("again", string(allowed))); err != nil || censored {
+		verif.Assert(false, "allowed-parse-passes")
+		return
+	}
+	if verif.Choose("close-between", 0, 1) == 1 {
+		v.fromClient(verifFrame('C', append([]byte{'S'}, "again\x00"...)))
+	}
+	fwd, censored, err = v.fromClient(verifParse("again", string(denied)))
+	verif.Reach("reused-name-handled")
+	verif.Assert(err == nil && censored, "denied-text-under-a-reused-name-is-censored")
+	verif.Assert(len(fwd) == 0, "denied-text-under-a-reused-name-not-written-to-the-database")
 }
 
 // VerifC12_PgProxyRelaySequence: messages the proxy has no reason to change, sent one after another in either
@@ -374,4 +388,91 @@ func VerifC19_PgTypedExtendedResult() {
 		want = []byte{byte(u >> 24), byte(u >> 16), byte(u >> 8), byte(u)}
 	}
 	verif.Assert(verif.Eq(got, verifDataRow(idCol, want, []byte("keep"))), "owner-gets-the-number-in-the-requested-format")
+}
+
+// VerifC16_PgProxyLogs: what the PostgreSQL proxy hands to the logger while it processes statements at debug level
+// (covered and uncovered ones, a denied one, an unparseable one) never contains the literal value of the statement.
+func VerifC16_PgProxyLogs() {
+	verif.CaptureLogs()
+	logging.SetLogLevel(logging.LogDebug)
+	store := verifPgKeys()
+	w := verifNewPg(store, "A", config.CryptoEnvelopeTypeAcraBlock)
+	lit := verifPgMarker("literal", 3)
+	skels := []string{
+		"insert into t (id, secret, plain) values (1, '%s', 'keep')",
+		"select id from t where plain = '%s'",
+		"update u set a = '%s' where b = 1",
+		"select id from t where plain = '%s' )))(((",
+	}
+	k := verif.Choose("statement", 0, len(skels)-1)
+	q := verifQuery(verifSplice(skels[k], lit))
+	w.fromClient(q)
+	verif.Reach("handled")
+	verif.Assert(!verif.LogContains(lit), "literal-not-in-log-messages")
+	if k < 3 {
+		// witness that the capture sees the proxy's debug message about this statement (with values hidden)
+		verif.Assert(verif.LogContains([]byte("New query")), "log-capture-sees-the-statement-message")
+		verif.Assert(verif.LogContains([]byte(" from t ")) || verif.LogContains([]byte("insert into t")) || verif.LogContains([]byte("update u")), "log-capture-sees-the-hidden-values-text")
+	}
+}
+
+// VerifC05_PgRejectedThenAccepted: after a statement was rejected by the firewall, the next accepted statement is
+// processed according to itself: its rows are decoded with its own column settings (a column declared as text comes
+// back as text for the owner), not with whatever the rejected statement left behind.
+func VerifC05_PgRejectedThenAccepted() {
+	store := verifPgKeys()
+	crypto.InitRegistry(nil)
+	env := config.CryptoEnvelopeTypeAcraBlock
+	schema, err := config.VerifNewStore(false, "t", []string{"id", "secret", "plain"},
+		&config.BasicColumnEncryptionSetting{Name: "secret", UsedClientID: "A", CryptoEnvelope: &env, DataType: "str"})
+	if err != nil {
+		panic("schema")
+	}
+	censor := acracensor.NewAcraCensor()
+	deny := handlers.NewDenyHandler(sqlparser.New(sqlparser.ModeStrict))
+	deny.AddTables([]string{"forbidden"})
+	censor.AddHandler(deny)
+	parser := sqlparser.New(sqlparser.ModeStrict)
+	setting := base.NewProxySetting(parser, schema, store, nil, censor, nil)
+	factory, _ := NewProxyFactory(setting, store, nil)
+	ctx := base.SetAccessContextToContext(context.Background(), base.NewAccessContext(base.WithClientID([]byte("A"))))
+	sess := &verifSession{data: map[string]interface{}{}}
+	ctx = base.SetClientSessionToContext(ctx, sess)
+	sess.ctx = ctx
+	p, err := factory.New([]byte("A"), sess)
+	if err != nil {
+		panic("proxy")
+	}
+	v := &verifPg{proxy: p.(*PgProxy), ctx: ctx, toDB: &bytes.Buffer{}, toCl: &bytes.Buffer{}, cin: &bytes.Buffer{}, din: &bytes.Buffer{},
+		logger: logrus.NewEntry(logrus.StandardLogger())}
+	v.client, _ = NewClientSidePacketHandler(v.cin, bufio.NewWriter(v.toDB), v.logger)
+	v.client.started = true
+	v.db, _ = NewDbSidePacketHandler(v.din, bufio.NewWriter(v.toCl), v.logger)
+
+	lit := verifPgMarker("literal", 3)
+	fwd, censored, err := v.fromClient(verifQuery(verifSplice("insert into t (id, secret, plain) values (1, '%s', 'keep')", lit)))
+	if err != nil || censored {
+		verif.Assert(false, "write-forwarded")
+		return
+	}
+	stored, ok := verifStoredHex(fwd)
+	if !ok {
+		verif.Assert(false, "protected-value-is-a-hex-bytea-literal")
+		return
+	}
+	for _, p := range [][]byte{verifCommandComplete("INSERT 0 1"), verifReady()} {
+		v.fromDB(p)
+	}
+	rejected := verif.Choose("rejected-first", 0, 1) == 1
+	if rejected {
+		_, censored, err := v.fromClient(verifQuery([]byte("select a, b, c from forbidden")))
+		verif.Assert(err == nil && censored, "denied-statement-is-censored")
+		// the proxy answers the client itself (error + ReadyForQuery); the database never saw the statement
+	}
+	out, ok := verifReadRow(v, verifPgHex(stored))
+	verif.Reach("row-processed")
+	verif.Assert(ok, "row-no-error")
+	if ok {
+		verif.Assert(verif.Eq(out, verifDataRow([]byte("1"), lit, []byte("keep"))), "accepted-statement-processed-by-its-own-settings")
+	}
 }
